@@ -586,7 +586,7 @@ theorem typedA {env : Env} {file : AFile} {G : List String} {c : TCtx} {D : Name
         · exact List.mem_append_left _ (List.mem_cons_of_mem _ (hk1 y hy))
         · subst hy; exact List.mem_append_left _ List.mem_cons_self
     · have hctl' : isCtl v = false := by simpa using hctl
-      simp only [letPrefix, letBodySt, hctl', Bool.false_eq_true, if_false, bindSimple_shape x hfv] at hdecl hndP hndR hdisj ⊢
+      simp only [letPrefix, letBodySt, hctl', Bool.false_eq_true, if_false, bindSimple_shape x hfv (by cases v <;> first | rfl | simp [stdC] at hsv)] at hdecl hndP hndR hdisj ⊢
       have hxin := hdecl.2 (vn x) (by rw [ndDecls_append, ndDecls_varDecl]; simp)
       obtain ⟨hty, _⟩ := typed_cexpr (c := c) hctl' hfv hsv hsc hctxv hl
       have h1 := stmt_varDecl_some_ok c ret s (vn x) hsvt hty (isNilLit_simple hsv hctl' hfv).1
